@@ -642,30 +642,65 @@ package gocql
 //@   props C04 C05
 //@   may_soft_panic
 //@   ensures !soft_panic() ==> typeis(result, *resultRowsFrame) && unbox(result, *resultRowsFrame) != nil
+// ROWS: <metadata>, [int] rows_count, then the rows (read cell by cell by the iterator)
+//@   count_calls parseResultMetadata readInt
+//@   before[C04] readInt: parseResultMetadata_calls == 1 && readInt_calls == 1
+//@   at_return[C04] parseResultMetadata_calls == 1 && readInt_calls == 1 && unbox(result0, *resultRowsFrame).numRows == readInt_ret0 && readInt_ret0 >= 0
+//@   at_return[C04] unbox(result0, *resultRowsFrame).meta.flags == parseResultMetadata_ret0.flags && unbox(result0, *resultRowsFrame).meta.colCount == parseResultMetadata_ret0.colCount && unbox(result0, *resultRowsFrame).meta.actualColCount == parseResultMetadata_ret0.actualColCount && same(unbox(result0, *resultRowsFrame).meta.columns, parseResultMetadata_ret0.columns) && same(unbox(result0, *resultRowsFrame).meta.pagingState, parseResultMetadata_ret0.pagingState)
 
 //@ func (f *framer) parseResultSetKeyspace
 //@   props C04 C05
 //@   requires f.header != nil
 //@   may_soft_panic
 //@   ensures !soft_panic() ==> typeis(result, *resultKeyspaceFrame) && unbox(result, *resultKeyspaceFrame) != nil
+// SET_KEYSPACE: [string] keyspace
+//@   ensures[C04] !soft_panic() ==> same(unbox(result, *resultKeyspaceFrame).keyspace, string(old(f.buf[2:2+int(be16(f.buf, 0))]))) && len(f.buf) == old(len(f.buf)) - 2 - int(be16(old(f.buf), 0))
 
 //@ func (f *framer) parseResultPrepared
 //@   props C04 C05
 //@   requires f.header != nil
 //@   may_soft_panic
 //@   ensures !soft_panic() ==> typeis(result, *resultPreparedFrame) && unbox(result, *resultPreparedFrame) != nil
+// PREPARED: [short bytes] id, <bind metadata>, and from v2 <result metadata>
+//@   count_calls parsePreparedMetadata parseResultMetadata
+//@   ensures[C04] !soft_panic() ==> unbox(result, *resultPreparedFrame).preparedID == old(f.buf[2:2+int(be16(f.buf, 0))])
+//@   at_return[C04] parsePreparedMetadata_calls == 1 && parseResultMetadata_calls == ite(f.proto >= 2, 1, 0)
+//@   at_return[C04] same(unbox(result0, *resultPreparedFrame).reqMeta.resultMetadata.columns, parsePreparedMetadata_ret0.resultMetadata.columns) && unbox(result0, *resultPreparedFrame).reqMeta.resultMetadata.flags == parsePreparedMetadata_ret0.resultMetadata.flags && same(unbox(result0, *resultPreparedFrame).reqMeta.pkeyColumns, parsePreparedMetadata_ret0.pkeyColumns) && unbox(result0, *resultPreparedFrame).reqMeta.resultMetadata.actualColCount == parsePreparedMetadata_ret0.resultMetadata.actualColCount
+//@   at_return[C04] f.proto >= 2 ==> same(unbox(result0, *resultPreparedFrame).respMeta.columns, parseResultMetadata_ret0.columns) && unbox(result0, *resultPreparedFrame).respMeta.flags == parseResultMetadata_ret0.flags && unbox(result0, *resultPreparedFrame).respMeta.actualColCount == parseResultMetadata_ret0.actualColCount && same(unbox(result0, *resultPreparedFrame).respMeta.pagingState, parseResultMetadata_ret0.pagingState)
 //@   ensures[C14] !soft_panic() ==> unbox(result, *resultPreparedFrame).reqMeta.actualColCount == len(unbox(result, *resultPreparedFrame).reqMeta.columns)
 
+// SCHEMA_CHANGE. v1/v2: [string] change, keyspace, table (table "" = keyspace change). v3+: [string] change,
+// [string] target, then KEYSPACE: keyspace; TABLE / TYPE: keyspace, name; FUNCTION / AGGREGATE: keyspace,
+// name, [string list] argument types. Every field is the string read at its position in that order.
 //@ func (f *framer) parseResultSchemaChange
 //@   props C04 C05
+//@   count_calls readString readStringList
 //@   requires f.header != nil
 //@   may_soft_panic
 //@   ensures !soft_panic() ==> result != nil && nonnilptr(result)
+//@   ensures[C04] !soft_panic() ==> typeis(result, *schemaChangeKeyspace) || typeis(result, *schemaChangeTable) || typeis(result, *schemaChangeType) || typeis(result, *schemaChangeFunction) || typeis(result, *schemaChangeAggregate)
+//@   before[C04] readStringList: f.proto > 2 && readString_calls == 4 && readStringList_calls == 1
+//@   at_return[C04] f.proto <= 2 && typeis(result0, *schemaChangeTable) ==> readString_calls == 3 && unbox(result0, *schemaChangeTable).change == nth(readString, 1) && unbox(result0, *schemaChangeTable).keyspace == nth(readString, 2) && unbox(result0, *schemaChangeTable).object == nth(readString, 3) && len(nth(readString, 3)) > 0
+//@   at_return[C04] f.proto <= 2 && typeis(result0, *schemaChangeKeyspace) ==> readString_calls == 3 && unbox(result0, *schemaChangeKeyspace).change == nth(readString, 1) && unbox(result0, *schemaChangeKeyspace).keyspace == nth(readString, 2) && len(nth(readString, 3)) == 0
+//@   at_return[C04] f.proto <= 2 ==> typeis(result0, *schemaChangeTable) || typeis(result0, *schemaChangeKeyspace)
+//@   at_return[C04] f.proto > 2 && typeis(result0, *schemaChangeKeyspace) ==> readString_calls == 3 && readStringList_calls == 0 && unbox(result0, *schemaChangeKeyspace).change == nth(readString, 1) && unbox(result0, *schemaChangeKeyspace).keyspace == nth(readString, 3)
+//@   at_return[C04] f.proto > 2 && typeis(result0, *schemaChangeTable) ==> readString_calls == 4 && readStringList_calls == 0 && unbox(result0, *schemaChangeTable).change == nth(readString, 1) && unbox(result0, *schemaChangeTable).keyspace == nth(readString, 3) && unbox(result0, *schemaChangeTable).object == nth(readString, 4)
+//@   at_return[C04] f.proto > 2 && typeis(result0, *schemaChangeType) ==> readString_calls == 4 && readStringList_calls == 0 && unbox(result0, *schemaChangeType).change == nth(readString, 1) && unbox(result0, *schemaChangeType).keyspace == nth(readString, 3) && unbox(result0, *schemaChangeType).object == nth(readString, 4)
+//@   at_return[C04] f.proto > 2 && typeis(result0, *schemaChangeFunction) ==> readString_calls == 4 && readStringList_calls == 1 && unbox(result0, *schemaChangeFunction).change == nth(readString, 1) && unbox(result0, *schemaChangeFunction).keyspace == nth(readString, 3) && unbox(result0, *schemaChangeFunction).name == nth(readString, 4) && same(unbox(result0, *schemaChangeFunction).args, readStringList_ret0)
+//@   at_return[C04] f.proto > 2 && typeis(result0, *schemaChangeAggregate) ==> readString_calls == 4 && readStringList_calls == 1 && unbox(result0, *schemaChangeAggregate).change == nth(readString, 1) && unbox(result0, *schemaChangeAggregate).keyspace == nth(readString, 3) && unbox(result0, *schemaChangeAggregate).name == nth(readString, 4) && same(unbox(result0, *schemaChangeAggregate).args, readStringList_ret0)
 
+// RESULT: [int] kind - 1 void, 2 rows, 3 set_keyspace, 4 prepared, 5 schema_change; anything else is refused
 //@ func (f *framer) parseResultFrame
 //@   props C04 C05
+//@   count_calls parseResultRows parseResultSetKeyspace parseResultPrepared parseResultSchemaChange
 //@   requires f.header != nil
 //@   may_soft_panic
+//@   at_return[C04] int(int32(be32(old(f.buf), 0))) == 1 ==> result1 == nil && typeis(result0, *resultVoidFrame) && len(f.buf) == old(len(f.buf)) - 4 && parseResultRows_calls + parseResultSetKeyspace_calls + parseResultPrepared_calls + parseResultSchemaChange_calls == 0
+//@   at_return[C04] int(int32(be32(old(f.buf), 0))) == 2 ==> result1 == nil && parseResultRows_calls == 1 && result0 == parseResultRows_ret0 && parseResultSetKeyspace_calls + parseResultPrepared_calls + parseResultSchemaChange_calls == 0
+//@   at_return[C04] int(int32(be32(old(f.buf), 0))) == 3 ==> result1 == nil && parseResultSetKeyspace_calls == 1 && result0 == parseResultSetKeyspace_ret0 && parseResultRows_calls + parseResultPrepared_calls + parseResultSchemaChange_calls == 0
+//@   at_return[C04] int(int32(be32(old(f.buf), 0))) == 4 ==> result1 == nil && parseResultPrepared_calls == 1 && result0 == parseResultPrepared_ret0 && parseResultRows_calls + parseResultSetKeyspace_calls + parseResultSchemaChange_calls == 0
+//@   at_return[C04] int(int32(be32(old(f.buf), 0))) == 5 ==> result1 == nil && parseResultSchemaChange_calls == 1 && result0 == parseResultSchemaChange_ret0 && parseResultRows_calls + parseResultSetKeyspace_calls + parseResultPrepared_calls == 0
+//@   at_return[C04] int(int32(be32(old(f.buf), 0))) < 1 || int(int32(be32(old(f.buf), 0))) > 5 ==> result1 != nil
 //@   ensures !soft_panic() && result1 == nil ==> result0 != nil
 //@   ensures !soft_panic() ==> nonnilptr(result0)
 
@@ -746,24 +781,39 @@ package gocql
 //@   requires f.header != nil
 //@   may_soft_panic
 //@   ensures !soft_panic() ==> typeis(result, *authenticateFrame) && unbox(result, *authenticateFrame) != nil
+// AUTHENTICATE: [string] authenticator class - that string, and nothing more is consumed
+//@   ensures[C04] !soft_panic() ==> same(unbox(result, *authenticateFrame).class, string(old(f.buf[2:2+int(be16(f.buf, 0))]))) && len(f.buf) == old(len(f.buf)) - 2 - int(be16(old(f.buf), 0))
 
 //@ func (f *framer) parseAuthSuccessFrame
 //@   props C04 C05
 //@   requires f.header != nil
 //@   may_soft_panic
 //@   ensures !soft_panic() ==> typeis(result, *authSuccessFrame) && unbox(result, *authSuccessFrame) != nil
+// AUTH_SUCCESS: [bytes] token (null when the length is negative)
+//@   ensures[C04] !soft_panic() && int(int32(be32(old(f.buf), 0))) < 0 ==> unbox(result, *authSuccessFrame).data == nil && len(f.buf) == old(len(f.buf)) - 4
+//@   ensures[C04] !soft_panic() && int(int32(be32(old(f.buf), 0))) >= 0 ==> unbox(result, *authSuccessFrame).data == old(f.buf[4:4+int(int32(be32(f.buf, 0)))]) && len(f.buf) == old(len(f.buf)) - 4 - int(int32(be32(old(f.buf), 0)))
 
 //@ func (f *framer) parseAuthChallengeFrame
 //@   props C04 C05
 //@   requires f.header != nil
 //@   may_soft_panic
 //@   ensures !soft_panic() ==> typeis(result, *authChallengeFrame) && unbox(result, *authChallengeFrame) != nil
+// AUTH_CHALLENGE: [bytes] token
+//@   ensures[C04] !soft_panic() && int(int32(be32(old(f.buf), 0))) < 0 ==> unbox(result, *authChallengeFrame).data == nil && len(f.buf) == old(len(f.buf)) - 4
+//@   ensures[C04] !soft_panic() && int(int32(be32(old(f.buf), 0))) >= 0 ==> unbox(result, *authChallengeFrame).data == old(f.buf[4:4+int(int32(be32(f.buf, 0)))]) && len(f.buf) == old(len(f.buf)) - 4 - int(int32(be32(old(f.buf), 0)))
 
+// EVENT: [string] type; TOPOLOGY_CHANGE / STATUS_CHANGE: [string] change, [inet] node; SCHEMA_CHANGE: as the result
 //@ func (f *framer) parseEventFrame
 //@   props C04 C05
+//@   count_calls readString readInet parseResultSchemaChange
 //@   requires f.header != nil
 //@   may_soft_panic
 //@   ensures !soft_panic() ==> result != nil && nonnilptr(result)
+//@   before[C04] readInet: readString_calls == 2 && readInet_calls == 1
+//@   before[C04] parseResultSchemaChange: readString_calls == 1
+//@   at_return[C04] parseResultSchemaChange_calls == 0 && typeis(result0, *topologyChangeEventFrame) ==> readString_calls == 2 && readInet_calls == 1 && unbox(result0, *topologyChangeEventFrame).change == nth(readString, 2) && same(unbox(result0, *topologyChangeEventFrame).host, readInet_ret0) && unbox(result0, *topologyChangeEventFrame).port == readInet_ret1
+//@   at_return[C04] parseResultSchemaChange_calls == 0 && typeis(result0, *statusChangeEventFrame) ==> readString_calls == 2 && readInet_calls == 1 && unbox(result0, *statusChangeEventFrame).change == nth(readString, 2) && same(unbox(result0, *statusChangeEventFrame).host, readInet_ret0) && unbox(result0, *statusChangeEventFrame).port == readInet_ret1
+//@   at_return[C04] parseResultSchemaChange_calls == 1 ==> result0 == parseResultSchemaChange_ret0
 
 // parseFrame is the containment point: soft panics become the returned error,
 // run-time panics would be re-panicked (so none may be reachable below it).
